@@ -28,7 +28,6 @@ from ...type import (
     GraphQLNamedType,
     GraphQLOutputType,
     get_named_type,
-    is_interface_type,
     is_leaf_type,
     is_list_type,
     is_non_null_type,
@@ -882,8 +881,8 @@ def collect_fields_and_fragment_spreads(
         if isinstance(selection, FieldNode):
             field_name = selection.name.value
             field_def = (
-                parent_type.fields.get(field_name)
-                if is_object_type(parent_type) or is_interface_type(parent_type)
+                context.schema.get_field(parent_type, field_name)
+                if parent_type is not None
                 else None
             )
             response_name = selection.alias.value if selection.alias else field_name
